@@ -487,7 +487,8 @@ def rule_g(ctx):
         for n, c, fresh, r in calls:
             if fresh:
                 continue
-            ctx.ob(R, f.qname, f"reuse expression `{norm(r)}` is False on the first iteration", norm(r) in (f"0 < {loopvar}", f"1 <= {loopvar}", f"{loopvar} != 0", "False"), "", c)
+            ctx.ob(R, f.qname, f"reuse expression `{norm(r)}` is False on the first iteration", norm(r) in (f"0 < {loopvar}", f"1 <= {loopvar}", f"{loopvar} != 0", "False"),
+                   f"`{norm(r)}` can be true in iteration 0, when no solver has been set up for this matrix yet", c, evidence=True)
         # dataflow: for each in-loop definition of a matrix name, is a fresh solve of that name passed before any reusing solve?
         for n, c, fresh, r in calls:
             if fresh or not isinstance(c.args[0], ast.Name):
